@@ -1,7 +1,9 @@
 CONSTANTS
   MaxSteps = 9
   MaxTime = 30000
+  GenMode = FALSE
 SPECIFICATION MSpec
+VIEW mview
 INVARIANT OneAtATime
 INVARIANT StoppedMeansQuiet
 PROPERTY NoAttemptWhileUp
